@@ -214,6 +214,66 @@ pub fn take_logs() -> Vec<LogRec> {
 }
 
 // ---------------------------------------------------------------------------------------
+// canaries: secrets planted by the scenarios, searched for in every captured log record
+// ---------------------------------------------------------------------------------------
+
+static CANARIES: Mutex<Vec<(String, String)>> = Mutex::new(Vec::new());
+
+/// Register a secret of class `class` (only distinctive values are worth searching for)
+pub fn canary(class: &str, value: &str) {
+    if value.len() >= 8 {
+        let mut c = CANARIES.lock().unwrap();
+        if !c.iter().any(|(_, v)| v == value) {
+            c.push((class.to_string(), value.to_string()));
+        }
+    }
+}
+
+fn scan_logs(logs: &[LogRec], out: &mut Outcome) {
+    use base64::Engine;
+    let canaries = CANARIES.lock().unwrap().clone();
+    if canaries.is_empty() || logs.is_empty() {
+        return;
+    }
+    let b64 = base64::engine::general_purpose::STANDARD;
+    let mut forms: Vec<(String, String, String)> = Vec::new();
+    for (class, v) in &canaries {
+        forms.push((class.clone(), "verbatim".into(), v.clone()));
+        if let Ok(d) = b64.decode(v.as_bytes()) {
+            if let Ok(t) = String::from_utf8(d) {
+                if t.len() >= 8 {
+                    forms.push((class.clone(), "base64-decoded".into(), t));
+                }
+            }
+        }
+        let hex: String = v.bytes().map(|b| format!("{:02x}", b)).collect();
+        forms.push((class.clone(), "hex".into(), hex));
+    }
+    for r in logs {
+        for (class, form, needle) in &forms {
+            if r.text.contains(needle.as_str()) {
+                let file = r.file.rsplit("/repo/").next().unwrap_or(&r.file);
+                out.violate(
+                    "C20",
+                    format!("leak:{}:{}@{}:{}", class, form, file, r.line),
+                    format!(
+                        "{} record at {}:{} contains a {} ({}): {}",
+                        r.level,
+                        file,
+                        r.line,
+                        class,
+                        form,
+                        r.text.chars().take(300).collect::<String>()
+                    ),
+                );
+            }
+        }
+    }
+    *out.counters.entry("probe:log_records_scanned".into()).or_insert(0) += logs.len() as u64;
+    *out.counters.entry("probe:canaries_planted".into()).or_insert(0) += canaries.len() as u64;
+}
+
+// ---------------------------------------------------------------------------------------
 // progress (for the wall-clock watchdog)
 // ---------------------------------------------------------------------------------------
 
@@ -292,6 +352,7 @@ where
     PROGRESS.fetch_add(1, Ordering::Relaxed);
     let _ = take_panics();
     let _ = take_logs();
+    CANARIES.lock().unwrap().clear();
     let base = heap_reset_peak();
     let mut seed_bytes = Vec::new();
     seed_bytes.extend_from_slice(&seed.to_le_bytes());
@@ -308,7 +369,10 @@ where
             let t = world::now_us();
             (r.ok(), t)
         });
-        // dropping the runtime drops every task, whose destructors still talk to the world
+        // dropping the runtime drops every task, whose destructors still talk to the world;
+        // the order in which tokio drops them depends on process-global task ids, so what
+        // happens from here on is not part of the trace
+        world::with(|w| w.trace_enabled = false);
         drop(rt);
         r
     });
@@ -352,6 +416,7 @@ pub fn finish(mut out: Outcome, rep: &SimReport) -> Outcome {
     if rep.timed_out {
         out.inconclusive = true;
     }
+    scan_logs(&rep.logs, &mut out);
     for p in &rep.panics {
         if p.location.contains("/repo/") {
             let loc = p.location.rsplit("/repo/").next().unwrap_or(&p.location).to_string();
